@@ -9,6 +9,8 @@ import (
 
 	v1 "github.com/DataDog/extendeddaemonset/api/v1alpha1"
 
+	"sigs.k8s.io/controller-runtime/pkg/client"
+
 	"vh/core"
 	"vh/kit"
 	"vh/simapi"
@@ -32,7 +34,7 @@ func (e *C05Restarts) Cases(tier string, _ int64) int {
 	return 32
 }
 func (e *C05Restarts) Floors(string) map[string]int {
-	return map[string]int{"C05.restart-points": 600, "C05.restart-points-with-recent-restart-of-a-less-restarted-container": 40}
+	return map[string]int{"C05.restart-points": 600, "C05.restart-points-with-validation-mode-edited-manual-to-auto": 200, "C05.restart-points-with-recent-restart-of-a-less-restarted-container": 40}
 }
 
 func (e *C05Restarts) Run(ctx *core.Ctx, idx int) {
@@ -48,7 +50,16 @@ func (e *C05Restarts) one(ctx *core.Ctx) {
 	s := simapi.NewStore()
 	canary := &v1.ExtendedDaemonSetSpecStrategyCanary{Replicas: kit.IS(2), ValidationMode: v1.ExtendedDaemonSetSpecStrategyCanaryValidationModeAuto,
 		Duration: &metav1.Duration{Duration: 10 * time.Minute}, NoRestartsDuration: &metav1.Duration{Duration: 5 * time.Minute}}
-	eds := kit.NewEDS("ns", "foo", "B", canary)
+	// half of the points: the canary was started in manual validation mode (which admits neither a duration nor a
+	// noRestartsDuration), the replica set syncs - and has to record the restarts - in that mode, and the user then
+	// edits the canary block in place to auto validation with the durations above, right before the ExtendedDaemonSet
+	// reconcile: the restarts happened all the same and noRestartsDuration counts from them
+	manualFirst := r.Intn(2) == 0
+	first := canary
+	if manualFirst {
+		first = &v1.ExtendedDaemonSetSpecStrategyCanary{Replicas: kit.IS(2), ValidationMode: v1.ExtendedDaemonSetSpecStrategyCanaryValidationModeManual}
+	}
+	eds := kit.NewEDS("ns", "foo", "B", first)
 	eds.UID = "uid-eds"
 	rsA := kit.NewRS(s, eds, "foo-a", kit.Tpl("A"), now.Add(-24*time.Hour))
 	rsA.Status = v1.ExtendedDaemonSetReplicaSetStatus{Status: "active", Desired: 2, Current: 2, Ready: 2, Available: 2}
@@ -138,11 +149,18 @@ func (e *C05Restarts) one(ctx *core.Ctx) {
 	}
 	ctx.Distinct("nontrivial", layout)
 	desc := map[string]any{"containers (restarts@age of last termination)": layout, "latestTermination": now.Sub(latest).String()}
-	attrs := map[string]string{"lessRestartedContainerRestartedLast": fmt.Sprint(lessRestartedLast)}
+	attrs := map[string]string{"lessRestartedContainerRestartedLast": fmt.Sprint(lessRestartedLast), "validationModeEditedDuringCanary": fmt.Sprint(manualFirst)}
 	o1 := ctl.Reconcile("ers", "ns", "foo-b", "fn")
 	if o1.Panic != "" {
 		ctx.Violation("C05", "C05.no-panic", merge2(attrs, "panic", o1.Panic), desc)
 		return
+	}
+	if manualFirst {
+		ctx.Count("C05.restart-points-with-validation-mode-edited-manual-to-auto")
+		auto := kit.NewEDS("ns", "foo", "B", canary).Spec.Strategy.Canary
+		s.Mutate(simapi.KindEDS, "ns", "foo", func(o client.Object) {
+			o.(*v1.ExtendedDaemonSet).Spec.Strategy.Canary = auto.DeepCopy()
+		})
 	}
 	o2 := ctl.Reconcile("eds", "ns", "foo", "fn")
 	if o2.Panic != "" {
